@@ -244,7 +244,7 @@ fn run(ctx: &Ctx) {
 		if !ctx.run_prop_shrink("refcount-growth", n, 30, super::refgrow::rg_case(false), |c, dir| super::refgrow::run_case(&base, c, dir)) {
 			return
 		}
-		let n = if ctx.tier == "thorough" { scaled(ctx, 0, 400) } else { 3 };
+		let n = if ctx.tier == "thorough" { scaled(ctx, 0, 400) } else { 5 };
 		ctx.run_prop_shrink("refcount-growth-crash", n, 30, super::refgrow::rg_case(true), |c, dir| super::refgrow::run_case(&base, c, dir));
 		let _ = std::fs::remove_dir_all(&base_dir);
 	}
